@@ -203,7 +203,8 @@ type World struct {
 	Nodes              []*Node
 	Wallets            []*wallet.Wallet // client wallets
 	WAddr              []string
-	GenesisReceiver    int // index into Wallets
+	TextAddrs          []string // free-text receiver addresses used so far
+	GenesisReceiver    int      // index into Wallets
 	Supply             spice.Melange
 	Net                *SimNet
 	Archive            *Archive
